@@ -274,3 +274,31 @@ Definition affine (a c : Z) (rows : list Z) : list Z := map (fun x => (a * x + c
 (* a function returning one array computed from the first array of its argument *)
 Definition to_leaf (a c : Z) (d : data) : data :=
   Leaf (affine a c (match first_leaf d with Some r => r | None => [] end)).
+
+(* ---- split / merge along the LAST axis (data_split / data_merge with axis=-1) of a 2-D array given as
+   the list of its rows (each row runs along the last axis).  Anchors: _data_split axis == -1 branch,
+   data_merge: tf.concat(data, axis=axis) with the SAME axis at every nesting level (after the repair of
+   the recursion, which used to drop `axis` for arrays inside a dict / list / tuple). ---- *)
+Definition mat := list (list Z).
+(* dat[..., i : min(i+b, size)] for i in range(0, size, b) *)
+Definition split_last (b : nat) (m : mat) : list mat :=
+  map (fun j => map (fun r => nth j (chunk b r) []) m) (seq 0 (length (chunk b (hd [] m)))).
+(* tf.concat(pieces, axis=-1): row i of the result = rows i of the pieces one after the other *)
+Definition concat_last (ps : list mat) : mat :=
+  map (fun i => concat (map (fun p => nth i p []) ps)) (seq 0 (length (hd [] ps))).
+(* tf.concat(pieces, axis=0): what the recursion did for nested arrays before the repair *)
+Definition concat_first (ps : list mat) : mat := concat ps.
+Definition mat_eqb : mat -> mat -> bool := list_eqb (list_eqb Z.eqb).
+
+(* ---- LazyFile(x) = LazyCall(identity, x) (iteration and, after the repair, eval: lazy_batches / lazy_eval with
+   fn = identity).  Before the repair eval() returned x alone and a repeated as_dataset(b) the bare x batches. ---- *)
+Definition lazyfile_eval_old (x extra : data) : data := x.
+Definition lazyfile_batches_again_old (mx b : nat) (x extra : data) : list data := data_split mx b x.
+
+(* ---- a LazyCall whose inner LazyCall is SHARED with another object (LazyCall.copy / data_replace): the inner
+   object is iterated with batch size bi, the own extra entries are split with bo.  After the repair
+   (__iter__ re-asserts self.x.as_dataset(self.batch_size)) bi = bo always; before, bi was whatever the last
+   as_dataset call on ANY object sharing the inner one had set. ---- *)
+Definition lazy_batches_shared (fn : data -> data) (mx bi bo : nat) (x extra : data) : list data :=
+  let xs := data_split mx bi x in
+  zipw dict_union (map fn xs) (data_split (length xs) bo extra).
